@@ -192,10 +192,11 @@ func vfLkStep(oracle int, nops int) {
 	if H > 0 {
 		W = vfChoice("W", maxW)
 	}
-	// C02 only: a free key with one queued request (it carries the wait-when-unlocked flag): the
-	// cancel-wait clause and "a refused unlock changes nothing" on a key nobody holds
+	// C02 and C04: a free key with one queued request (it carries the wait-when-unlocked flag): the
+	// cancel-wait clause and "a refused unlock changes nothing" on a key nobody holds (C02); the
+	// wake-up pass after a newcomer was granted on the free key (C04)
 	vfFreeWaiter = false
-	if H == 0 && oracle == vfOC02 && vfChoice("freeWaiter", 2) == 1 {
+	if H == 0 && (oracle == vfOC02 || oracle == vfOC04) && vfChoice("freeWaiter", 2) == 1 {
 		vfFreeWaiter = true
 		W = 1
 	}
@@ -578,7 +579,9 @@ func vfOracleC04(env *vfEnv, m *LockManager, pre, post *vfSnap, op int, cmd *pro
 		}
 	}
 	// the newcomer may bypass the queue only with strictly higher priority
-	if op == 0 && pre.holderById(vfLockRequestedId) < 0 {
+	// (a request parked on a FREE key with the wait-when-unlocked flag waits for the next unlock by
+	// design: a newcomer is granted ahead of it)
+	if op == 0 && pre.holderById(vfLockRequestedId) < 0 && !vfFreeWaiter {
 		for _, h := range post.holders {
 			if h.reqId == vfStepReqId && pre.holderByPtr(h.l) < 0 && pre.waiterByPtr(h.l) < 0 {
 				np := uint8(0)
